@@ -18,6 +18,7 @@ BASE = os.path.join(HERE, "source_literals.json")
 FILES = ["htmltools/_core.py", "htmltools/_util.py", "htmltools/_jsx.py", "htmltools/__init__.py", "htmltools/_versions.py",
          "htmltools/tags.py", "htmltools/svg.py"]
 BASE_INTS = os.path.join(HERE, "source_ints.json")
+BASE_RX = os.path.join(HERE, "source_regexes.json")
 
 
 def harvest(repo: str) -> list[str]:
@@ -42,6 +43,118 @@ def harvest(repo: str) -> list[str]:
                 for w in re.findall(r"[A-Za-z][A-Za-z0-9_:.-]{1,30}", n.value):
                     out.add(w)
     return sorted(out)
+
+
+RE_FUNCS = {"compile", "search", "match", "fullmatch", "sub", "subn", "findall", "finditer", "split"}
+
+
+def harvest_regexes(repo: str) -> list[str]:
+    """string literals passed as the pattern of a call `re.<f>(pattern, …)`"""
+    out: set[str] = set()
+    for rel in FILES:
+        try:
+            with open(os.path.join(repo, rel), encoding="utf-8") as f:
+                tree = ast.parse(f.read())
+        except (OSError, SyntaxError):
+            continue
+        for n in ast.walk(tree):
+            if (isinstance(n, ast.Call) and isinstance(n.func, ast.Attribute) and n.func.attr in RE_FUNCS
+                    and isinstance(n.func.value, ast.Name) and n.func.value.id == "re" and n.args
+                    and isinstance(n.args[0], ast.Constant) and isinstance(n.args[0].value, str) and len(n.args[0].value) <= 300):
+                out.add(n.args[0].value)
+    return sorted(out)
+
+
+def sample_regex(pattern: str, rng, n: int = 6) -> list[str]:
+    """strings matched by `pattern` (checked with re.search), by walking the parsed pattern; best effort, never raises"""
+    try:
+        import re._parser as sp      # Python >= 3.11
+    except ImportError:              # pragma: no cover
+        import sre_parse as sp
+    try:
+        tree = sp.parse(pattern)
+        rx = re.compile(pattern)
+    except Exception:  # noqa: BLE001
+        return []
+    CAT = {"CATEGORY_DIGIT": "0123456789", "CATEGORY_WORD": "abzAZ09_", "CATEGORY_SPACE": " \t\n",
+           "CATEGORY_NOT_DIGIT": "ax-", "CATEGORY_NOT_WORD": "-+ .", "CATEGORY_NOT_SPACE": "ab1-"}
+
+    def in_set(items):
+        neg = False
+        pool = []
+        for op, av in items:
+            nm = str(op)
+            if nm == "NEGATE":
+                neg = True
+            elif nm == "LITERAL":
+                pool.append(chr(av))
+            elif nm == "RANGE":
+                lo, hi = av
+                pool += [chr(lo), chr(hi), chr((lo + hi) // 2)]
+            elif nm == "CATEGORY":
+                pool += list(CAT.get(str(av), "a"))
+        if neg:
+            cand = [c for c in "aZ0-_<&\"' x" if c not in pool]
+            return cand or ["~"]
+        return pool or ["a"]
+
+    def gen(t):
+        out = []
+        for op, av in t:
+            nm = str(op)
+            if nm == "LITERAL":
+                out.append(chr(av))
+            elif nm == "NOT_LITERAL":
+                out.append("a" if chr(av) != "a" else "b")
+            elif nm == "ANY":
+                out.append(rng.choice("a<&\"x"))
+            elif nm == "IN":
+                out.append(rng.choice(in_set(av)))
+            elif nm in ("MAX_REPEAT", "MIN_REPEAT", "POSSESSIVE_REPEAT"):
+                lo, hi, sub = av
+                k = rng.choice([lo, lo, min(lo + 1, hi), min(lo + 2, hi)]) if hi >= lo else lo
+                k = min(k, lo + 3)
+                for _ in range(k):
+                    out.append(gen(sub))
+            elif nm == "SUBPATTERN":
+                out.append(gen(av[3]))
+            elif nm == "ATOMIC_GROUP":
+                out.append(gen(av))
+            elif nm == "BRANCH":
+                out.append(gen(rng.choice(av[1])))
+            elif nm == "CATEGORY":
+                out.append(rng.choice(CAT.get(str(av), "a")))
+            # AT, ASSERT, ASSERT_NOT, GROUPREF: nothing emitted; the match is checked below
+        return "".join(out)
+
+    res = []
+    for _ in range(n * 4):
+        try:
+            w = gen(tree)
+        except Exception:  # noqa: BLE001
+            break
+        if w and rx.search(w) and w not in res:
+            res.append(w)
+        if len(res) >= n:
+            break
+    return res
+
+
+def new_regex_samples(repo: str | None = None, seed: int = 0) -> list[str]:
+    """sample matches of every regular expression the source has gained"""
+    import random
+    repo = repo or os.environ.get("VERIF_REPO", "/repo")
+    try:
+        with open(BASE_RX) as f:
+            base = set(json.load(f))
+    except OSError:
+        return []
+    rng = random.Random(seed)
+    out = []
+    for p in harvest_regexes(repo):
+        if p not in base:
+            out += sample_regex(p, rng)
+    return out
 
 
 def harvest_ints(repo: str) -> list[int]:
@@ -88,6 +201,8 @@ if __name__ == "__main__":
     if "--write" in sys.argv:
         with open(BASE, "w") as f:
             json.dump(harvest(os.environ.get("VERIF_REPO", "/repo")), f, indent=0, ensure_ascii=False)
+        with open(BASE_RX, "w") as f:
+            json.dump(harvest_regexes(os.environ.get("VERIF_REPO", "/repo")), f, indent=0)
         with open(BASE_INTS, "w") as f:
             json.dump(harvest_ints(os.environ.get("VERIF_REPO", "/repo")), f)
-    print(new(), new_ints())
+    print(new(), new_ints(), new_regex_samples())
